@@ -179,6 +179,14 @@ def run(ctx):
             if 0 <= u < 1:
                 xs = list(s["xs"]); xs[2 * (n - 2)] = u
                 extra.append(dict(s, xs=xs, kind="last_choice_on_boundary", req=S.sample_request(c, s["routing"], s["table"], xs)))
+    # every edge-choice coordinate exactly 0 (a generator of [0,1) delivers it): the first edge of each remaining graph is removed - the base
+    # point of each of these was sampled successfully and differs in nothing else
+    for s in [s for s in ss if s["impl"].get("status") == "ok" and len(s["case"]["edges"]) >= 2][: (10 if ctx.quick else 60)]:
+        n = len(s["case"]["edges"])
+        xs = list(s["xs"])
+        for k in range(n - 1):
+            xs[2 * k] = 0.0
+        extra.append(dict(s, xs=xs, kind="zero_choice", req=S.sample_request(s["case"], s["routing"], s["table"], xs)))
     S.run(extra)
     # a WIDER scalar type (double-double) with the first edge-choice coordinate 1e-22 below / above an exact cumulative boundary: the scan
     # compares running sums of J(g\e)/J(g)/omega(g\e) formed in the user's type from the TABLE's numbers, so exact rational arithmetic on the
@@ -224,6 +232,9 @@ def run(ctx):
         if a.get("status") == "panic":
             ctx.violation(f"sample panicked on a point of exactly get_dimension() = {len(s['xs'])} coordinates: {a.get('msg', '')[:120]}",
                           S.small_req(s), observed=a); continue
+        if s.get("kind") == "zero_choice" and a.get("status") != "ok":
+            ctx.violation(f"edge-choice coordinates exactly 0 are legal uniform numbers (the first edge is selected): sample returns {a.get('status')} "
+                          f"where the same point with other edge-choice coordinates succeeds", S.small_req(s), expected="ok", observed=a.get("status")); continue
         # exact oracle for the whole removal sequence: coordinate 2k selects the (k+1)-th edge by the exact cumulative distribution of the
         # graph that is left (the last edge needs no coordinate); observed order = decreasing pre-rescaling parameters
         n = len(c["edges"])
